@@ -708,6 +708,10 @@ def _adapter_source_nodes(source):
     with dask.config.set({"array.optimize-graph": source["optimize"]}):
         if source.get("kind") == "container":
             y = CN.build_container(source)[source["roots"][0]]
+        elif source.get("kind") == "fused":
+            from harness.props_ext import c21_fused as CF
+
+            y = CF.build_fused(source)[source["roots"][0]]
         else:
             env = programs.run_da_ext(source["prog"])
             y = env[source["prog"][-1]["out"]]
@@ -726,8 +730,17 @@ def adapter_source(ctx, source, count=True):
         for sig, detail in adapter_fidelity(ctx, {}, n, count=False):
             out.append((sig, detail, f"{type(n).__module__}.{type(n).__name__}"))
         if count:
-            ctx.count(("adapter", type(n).__name__, source.get("api", "program"), source["optimize"]))
+            ctx.count(("adapter", type(n).__name__, source.get("api", "fused" if source.get("kind") == "fused" else "program"), source["optimize"]))
     return out
+
+
+def samename_case(ctx, case, count=True):
+    """[(sig, detail)] of one same-name history: per (array, consumer) layer fidelity of every lowered node + record values"""
+    from harness.props import C21
+    from harness.props_ext import c21_fused as CF
+
+    fails = CF.run_samename(ctx, case, C21.exec_records, count=count, fidelity=True)
+    return [(sig if sig.startswith("samename:layer-records") else "frisky:" + sig, d) for sig, d in fails or []]
 
 
 def adapter_stream(ctx):
@@ -738,6 +751,7 @@ def adapter_stream(ctx):
     import dask
     from harness import programs
     from harness.props import C21
+    from harness.props_ext import c21_fused as CF
     from harness.props_ext import c21_nested as CN
 
     rng = ctx.rng
@@ -752,13 +766,13 @@ def adapter_stream(ctx):
             return
         for sig in sigs:
             small = source
-            if source.get("kind") == "container":
+            if source.get("kind") in ("container", "fused"):
                 def still(c, sig=sig):
                     f = adapter_source(ctx, c, count=False)
                     return bool(f) and any(s == sig for s, _, _ in f)
 
                 try:
-                    small = CN.shrink_container(source, still)
+                    small = (CN.shrink_container if source["kind"] == "container" else CF.shrink_fused)(source, still)
                 except Exception:
                     small = source
             f2 = adapter_source(ctx, small, count=False) or fails
@@ -808,7 +822,86 @@ def adapter_stream(ctx):
                     except Exception:
                         pass
                     report(src, adapter_source(ctx, src, count=False) or fails)
-    ctx.notes["adapter_stream"] = f"{n_c} container cases ({len(cases)} enumerated) + {n_p} random programs x optimize on/off in {time.time() - t0:.1f}s"
+        ctx.notes["adapter_stream"] = f"{n_c} container cases ({len(cases)} enumerated) + {n_p} random programs x optimize on/off in {time.time() - t0:.1f}s"
+        # ---- fused-layer programs (harness.props_ext.c21_fused): the pure-Python FusedBlockwiseLayer shares ONE block's fused subgraph
+        # between all blocks (analytical / uniform / site-based / seeded derivations): per key the dependencies of _layer(), then values
+        t1 = time.time()
+        budget = ctx.scale(8, 60)
+        cases = CF.fused_grid(rng, full=ctx.tier != "quick")
+        it = iter(cases)
+        n_f = 0
+        while time.time() - t1 < budget:
+            case = next(it, None)
+            if case is None:
+                if n_f >= len(cases) + ctx.scale(300, 20000):
+                    break
+                case = CF.random_fused(rng)
+            n_f += 1
+            case = dict(case, roots=["y"], history="group")
+            fails = adapter_source(ctx, case)
+            if fails:
+                report(case, fails)
+                continue
+            vf = C21.run_case(ctx, case, count=False)
+            for sig, detail in (vf or [])[:1]:
+                reported[(sig,)] = reported.get((sig,), 0) + 1
+                if reported[(sig,)] > 2:
+                    continue
+
+                def still(c, sig=sig):
+                    f = C21.run_case(ctx, c, count=False)
+                    return bool(f) and any(s == sig for s, _ in f)
+
+                try:
+                    small = CF.shrink_fused(case, still)
+                    detail = next((d for s_, d in C21.run_case(ctx, small, count=False) or [] if s_ == sig), detail)
+                except Exception:
+                    small = case
+                ctx.fail("frisky:adapter-" + sig, {"kind": "adapter-values", "source": {k: v for k, v in small.items() if k != "grid"}}, detail)
+            if not vf:
+                with dask.config.set({"array.optimize-graph": case["optimize"]}):
+                    try:
+                        ctx.count(("fused-values",) + CF.fused_class(case, CF.fused_paths(CF.build_fused(case)["y"]))[1:])
+                    except Exception:
+                        pass
+        ctx.notes["fused_stream"] = f"{n_f} fused-layer programs ({len(cases)} enumerated) in {time.time() - t1:.1f}s"
+        # ---- same-name histories: arrays created in one process under one user-supplied name= with different grids / data
+        t1 = time.time()
+        budget = ctx.scale(5, 30)
+        tag = "nm%d" % rng.randrange(10**6)
+        cases = CF.samename_grid(rng, tag)
+        it = iter(cases)
+        n_s = 0
+        while time.time() - t1 < budget:
+            case = next(it, None)
+            if case is None:
+                if n_s >= len(cases) + ctx.scale(200, 10000):
+                    break
+                case = CF.random_samename(rng, tag, n_s)
+            n_s += 1
+            fails = samename_case(ctx, case)
+            if fails:
+                sigs = tuple(sorted({s_ for s_, _ in fails}))
+                reported[sigs] = reported.get(sigs, 0) + 1
+                if reported[sigs] > 2:
+                    continue
+                fresh = lambda: "%s~%d" % (case["name"].split("~")[0], rng.randrange(10**9))
+                sig = fails[0][0]
+
+                def still(c, sig=sig):
+                    f = samename_case(ctx, c, count=False)
+                    return bool(f) and any(s_ == sig for s_, _ in f)
+
+                try:
+                    small = dict(CF.shrink_samename(dict(case, name=fresh()), still, fresh), name=fresh())
+                    f2 = samename_case(ctx, small, count=False) or []
+                    if not any(s_ == sig for s_, _ in f2):
+                        small = dict(case, name=fresh())
+                        f2 = samename_case(ctx, small, count=False) or fails
+                except Exception:
+                    small, f2 = case, fails
+                ctx.fail(sig, {k: v for k, v in small.items() if k != "grid"}, next((d for s_, d in f2 if s_ == sig), fails[0][1]))
+        ctx.notes["samename_stream"] = f"{n_s} same-name histories ({len(cases)} enumerated) in {time.time() - t1:.1f}s"
 
 
 def declines(ctx):
@@ -959,7 +1052,12 @@ def run(ctx, replay=None):
         "with a `_frisky_layer`; distinct = (node class, outcome); adapter: every lowered node of the catalogue, of the container cases of "
         "harness.props_ext.c21_nested (every container skeleton x dask leaf kind enumerated + seeded random) and of seeded random programs "
         "(optimize-graph on/off): records of the layer the walk uses vs the node's _layer(): keys, external dependencies, flat arguments; "
-        "distinct = (node class, which layer, api, optimize)"
+        "distinct = (node class, which layer, api, optimize); fused: the fused-layer programs of harness.props_ext.c21_fused (per-block function "
+        "arguments block_id / block_info / chunk-shape / block-id deps x extra positional and keyword arguments on ragged chunks; one source at "
+        "several sites with equal / transposed / permuted / broadcast block maps, square and non-square grids; ragged creation ops / map_overlap in "
+        "fused chains): every lowered node's records vs _layer() per key, then records ~ dask graph ~ per-block NumPy on all blocks; distinct = "
+        "(operators, reads, block maps, ragged, non-square, fast path taken); same-name: 2-3 arrays under one user-supplied name= with different "
+        "grids / data in both orders, every consumer kind: same two oracles per (array, consumer)"
     )
     ctx.assumptions += [
         "PARTIAL: `dask_array._rust` cannot be built offline; the #[pymethods]/expand() code (cartesian products, key assembly, "
@@ -1005,6 +1103,9 @@ def run(ctx, replay=None):
             elif case is not None and case.get("kind") == "adapter":
                 for sig, detail, node in adapter_source(ctx, case["source"]) or []:
                     ctx.fail(sig, dict(case, node=node), detail)
+            elif case is not None and case.get("kind") == "samename":
+                for sig, detail in samename_case(ctx, case):
+                    ctx.fail(sig, case, detail)
             elif case is not None and case.get("kind") == "adapter-values":
                 from harness.props import C21
 
